@@ -10,8 +10,12 @@ impl<'a> Tr<'a> {
         if m.turbofish.is_some() {
             return self.unsup(format!("turbofish on `.{}`", name));
         }
+        // methods that change their receiver (a variable or a field path of one)
+        if let Some(v) = self.tr_mut_method(m, env)? {
+            return Ok(v);
+        }
         let recv = self.tr_expr(&m.receiver, env, None)?;
-        if recv.callres {
+        if recv.callres && !(name == "map_err" && matches!(recv.ty, Ty::ResPE(_))) {
             return self.unsup(format!("`.{}` on the result of a call to a Result-returning function (it may have panicked)", name));
         }
         let nargs = |me: &Self, n: usize| -> R<()> {
@@ -72,6 +76,18 @@ impl<'a> Tr<'a> {
                     nargs(self, 0)?;
                     self.lift(&[recv], Ty::Opt(Box::new(Ty::U8)), false, &|a| format!("(List.head? {})", a[0]))
                 }
+                "as_ref" | "to_vec" => {
+                    nargs(self, 0)?;
+                    Ok(recv)
+                }
+                "split" => {
+                    nargs(self, 1)?;
+                    let (x, body) = self.tr_closure1(args[0], env, Ty::U8)?;
+                    if body.ty != Ty::Bool {
+                        return self.unsup("closure of split does not return bool");
+                    }
+                    self.lift(&[recv], Ty::IterB, false, &|a| format!("(splitOn (fun {} => {}) {})", x, body.t, a[0]))
+                }
                 "get" => {
                     nargs(self, 1)?;
                     let i = self.tr_expr(args[0], env, Some(&Ty::Usize))?;
@@ -95,7 +111,51 @@ impl<'a> Tr<'a> {
                     nargs(self, 0)?;
                     Ok(Val { ty: Ty::Iter(el), ..recv })
                 }
+                "to_vec" | "into_boxed_slice" | "as_ref" | "into_vec" => {
+                    nargs(self, 0)?;
+                    Ok(recv)
+                }
+                "contains" => {
+                    nargs(self, 1)?;
+                    let x = self.tr_expr(args[0], env, Some(&el))?;
+                    if x.callres || !self.eq_compatible(&x.ty, &el)? {
+                        return self.unsup(format!("`.contains` of {:?} in a list of {:?}", x.ty, el));
+                    }
+                    self.lift(&[recv, x], Ty::Bool, false, &|a| format!("(List.contains {} {})", a[0], a[1]))
+                }
+                "binary_search" => {
+                    nargs(self, 1)?;
+                    let x = self.tr_expr(args[0], env, Some(&el))?;
+                    let bytes = self.lean_ty(&el).map(|s| s == "Bytes").unwrap_or(false);
+                    if x.callres || !bytes || !self.eq_compatible(&x.ty, &el)? {
+                        return self.unsup("`binary_search` on something that is not a list of byte strings");
+                    }
+                    self.lift(&[recv, x], Ty::BSearch, false, &|a| format!("(UL.binarySearchBy {} (UL.cmpBytes {}))", a[0], a[1]))
+                }
                 _ => self.unsup(format!("`.{}` on a list", name)),
+            },
+            Ty::IterB => match name.as_str() {
+                "peekable" => {
+                    nargs(self, 0)?;
+                    Ok(recv)
+                }
+                _ => self.unsup(format!("`.{}` on the subtag iterator (only through a variable)", name)),
+            },
+            Ty::Map => match name.as_str() {
+                "is_empty" => {
+                    nargs(self, 0)?;
+                    self.lift(&[recv], Ty::Bool, false, &|a| format!("(List.isEmpty {})", a[0]))
+                }
+                "get" => {
+                    nargs(self, 1)?;
+                    let kx = self.tr_expr(args[0], env, Some(&Ty::Tiny(4)))?;
+                    let bytes = self.lean_ty(&kx.ty).map(|s| s == "Bytes").unwrap_or(false);
+                    if kx.callres || !bytes {
+                        return self.unsup("map key");
+                    }
+                    self.lift(&[recv, kx], Ty::Opt(Box::new(Ty::List(Box::new(Ty::Tiny(8))))), false, &|a| format!("(UL.AMap.get {} {})", a[1], a[0]))
+                }
+                _ => self.unsup(format!("`.{}` on a map", name)),
             },
             Ty::Iter(el) => match name.as_str() {
                 "any" | "all" => {
@@ -200,9 +260,15 @@ impl<'a> Tr<'a> {
                     if body.ty != Ty::PErr {
                         return self.unsup("`map_err` closure that does not produce a ParserError");
                     }
-                    self.lift(&[recv], Ty::ResPE(inner), false, &|a| {
+                    let (cr, ic) = (recv.callres, recv.itercall);
+                    let mut r0 = recv.clone();
+                    r0.callres = false;
+                    let mut out = self.lift(&[r0], Ty::ResPE(inner), false, &|a| {
                         format!("(Res.mapErr (fun {} => {}) {})", x, body.t, a[0])
-                    })
+                    })?;
+                    out.callres = cr;
+                    out.itercall = ic;
+                    Ok(out)
                 }
                 "is_ok" => {
                     nargs(self, 0)?;
@@ -282,9 +348,17 @@ impl<'a> Tr<'a> {
             }
             "map" => {
                 nargs(self, 1)?;
-                let (x, body) = self.tr_closure1(args[0], env, inner)?;
+                let (x, body) = self.tr_closure1x(args[0], env, inner, true)?;
                 let ty = Ty::Opt(Box::new(body.ty.clone()));
-                self.lift(&[recv], ty, false, &|a| format!("(Option.map (fun {} => {}) {})", x, body.t, a[0]))
+                let mut out = self.lift(&[recv], ty, false, &|a| format!("(Option.map (fun {} => {}) {})", x, body.t, a[0]))?;
+                // the closure's result may be a panic: only a `match` may look at the value
+                out.callres = body.callres;
+                Ok(out)
+            }
+            "unwrap_or_default" => {
+                nargs(self, 0)?;
+                let d = self.default_term(&inner)?;
+                self.lift(&[recv], inner, false, &|a| format!("(Option.getD {} {})", a[0], d))
             }
             "is_some_and" => {
                 nargs(self, 1)?;
